@@ -107,12 +107,23 @@ def prove(pc, hyp, goal, timeout_s=10, logic=None, portfolio=False, fresh=True, 
                 m = {k[2:]: v for k, v in (m or {}).items() if k.startswith('i!')}
                 return r, m, dt, 'z3-5.1(api, order abstraction)'
     arith = (logic or '').endswith(('NRA', 'LRA', 'LIA'))
+    rest = []
+    if arith:
+        # cone of influence: path-condition conjuncts over variables disjoint from the goal's (e.g. the bit-vector mask/index
+        # decisions of the path next to a real-arithmetic goal) are checked separately - a mixed BV+NRA query comes back unknown
+        rel, rest = _slice(list(pc) + list(hyp), goal)
+        if rest: assertions = rel + [z3.Not(goal)]
     try:
         if arith: r, m, dt = check_api(assertions, min(timeout_s, 5.0) if portfolio else timeout_s, None if api_default else logic)
         elif logic == 'QF_BV': r, m, dt = check_api(assertions, min(timeout_s, 6.0), logic)
         else: r, m, dt = check_api(assertions, min(timeout_s, 4.0), None)
     except z3.Z3Exception:
         r, m, dt = 'unknown', None, 0.0
+    if r == 'sat' and rest:
+        r2, m2, dt2 = check_api(rest, 10); dt += dt2
+        if r2 == 'sat': m = dict(m2 or {}, **(m or {}))
+        elif r2 == 'unsat': return 'unsat', None, dt, 'z3-5.1(api, path condition infeasible)'
+        else: return 'unknown', None, dt, 'z3-5.1(api)'
     if r != 'unknown' or not portfolio: return r, m, dt, 'z3-5.1(api)'
     tot = dt
     txt = to_smt2(assertions, logic)
@@ -125,6 +136,38 @@ def prove(pc, hyp, goal, timeout_s=10, logic=None, portfolio=False, fresh=True, 
             r2, m, dt2 = run_cli(binary, txt, timeout_s, want_model=True); tot += dt2
         if r != 'unknown': return r, m, tot, binary
     return 'unknown', None, tot, 'portfolio'
+
+
+def _uvars(e, memo):
+    """names of the uninterpreted constants in e"""
+    k = e.get_id()
+    if k in memo: return memo[k][1]
+    out = set(); stack = [e]; seen = set()
+    while stack:
+        x = stack.pop(); i = x.get_id()
+        if i in seen: continue
+        seen.add(i)
+        if z3.is_const(x):
+            if x.decl().kind() == z3.Z3_OP_UNINTERPRETED: out.add(x.decl().name())
+        elif z3.is_app(x): stack.extend(x.children())
+        elif z3.is_quantifier(x): stack.append(x.body())
+    memo[k] = (e, out)      # keep e alive: ids are recycled
+    return out
+
+
+def _slice(hyps, goal):
+    memo = {}
+    cone = set(_uvars(goal, memo)); items = [(h, _uvars(h, memo)) for h in hyps]
+    rel = []; changed = True; pending = items
+    while changed:
+        changed = False; nxt = []
+        for h, vs in pending:
+            if not vs or vs & cone:
+                rel.append(h)
+                if not vs <= cone: cone |= vs; changed = True
+            else: nxt.append((h, vs))
+        pending = nxt
+    return rel, [h for h, _ in pending]
 
 
 # ---- signed-order abstraction: a BV formula built only from variables, constants, ite, = and signed comparisons is
